@@ -150,11 +150,20 @@ func VerifC14OwnedMaps() {
 		verifObj("@id", "http://x/lex-use-of-decl", smNS+"element", decl, smNS+"value", "[(20,0)-(20,18)]"),
 		verifObj("@id", "http://x/sm-user", "@type", smNS+"SourceMap", smNS+"lexical", []any{verifObj("@id", "http://x/lex-user"), verifObj("@id", "http://x/lex-use-of-decl")}),
 	}
-	nodes := []any{declNode, userNode, verifObj("@id", "http://x/value", "@type", "http://example.org/D")}
+	// the order of the graph is not fixed by anything: the maps can come before the nodes that own them
+	// (ids sort that way when a map is not named after its owner)
+	owners := []any{declNode, userNode, verifObj("@id", "http://x/value", "@type", "http://example.org/D")}
+	var maps []any
 	if userFirst {
-		nodes = append(append(nodes, userMap...), declMap...)
+		maps = append(append(maps, userMap...), declMap...)
 	} else {
-		nodes = append(append(nodes, declMap...), userMap...)
+		maps = append(append(maps, declMap...), userMap...)
+	}
+	var nodes []any
+	if v.Bool("mapsBeforeOwners") {
+		nodes = append(append(nodes, maps...), owners...)
+	} else {
+		nodes = append(append(nodes, owners...), maps...)
 	}
 	lexical := Index(verifObj("@graph", nodes)).(types.ObjectMap)["@lexical"].(types.ObjectMap)
 	v.Reach("indexed")
